@@ -15,6 +15,15 @@ def ps_spec(A, p):
     return Specs(A).pess(A.S0, A.P0, A.REG0)(p)
 
 
+def _safe_discard(A, cert):
+    """The soundness direction of the elimination rule, consumed by the C01 / C05 lemmas (a more conservative rule keeps it)."""
+    e = z3.Int("e!q")
+    return [
+        ("safe/a_design_leaves_S_only_with_a_certificate", lambda S1, P1, U1, res: z3.ForAll([e], z3.Implies(z3.And(z3.Select(A.S0, e), z3.Not(z3.Select(S1, e))), cert(e)))),
+        ("safe/P_and_U_untouched", lambda S1, P1, U1, res: z3.And(same_set(P1, A.P0), same_set(U1, A.U0))),
+    ]
+
+
 def _paveba_family(name):
     @task("C02", "%s.discarding" % name)
     def _t(t):
@@ -28,7 +37,7 @@ def _paveba_family(name):
         cert = Specs(A).cert_paveba(A.S0, A.U0, A.REG0)
 
         transition(t, A, paths, "discarding", "exactly_certified_designs_leave(zero slack, witness in S u U)",
-                   S=lambda e: z3.And(z3.Select(A.S0, e), z3.Not(cert(e))))
+                   S=lambda e: z3.And(z3.Select(A.S0, e), z3.Not(cert(e))), consumers=_safe_discard(A, cert))
         t.implicit()
     return _t
 
@@ -46,8 +55,12 @@ def _pess_set(name):
         t.must_fail()
         t.no_raise(paths)
 
+        ee = z3.Int("e!q")
         transition(t, A, paths, "compute_pessimistic_set", "designs_no_other_active_design_pessimistically_dominates",
-                   result=lambda e: ps_spec(A, e))
+                   result=lambda e: ps_spec(A, e),
+                   consumers=[("safe/result_contains_only_active_designs", lambda S1, P1, U1, res: z3.BoolVal(False) if res is None else
+                               z3.ForAll([ee], z3.Implies(z3.Select(res, ee), z3.Or(z3.Select(A.S0, ee), z3.Select(A.P0, ee))))),
+                              ("safe/S_and_P_untouched", lambda S1, P1, U1, res: z3.And(same_set(S1, A.S0), same_set(P1, A.P0)))])
         t.implicit()
     return _t
 
@@ -65,7 +78,12 @@ def _vogp_family(name, slack_of):
         def c_ps(ex, st, self_val, args, kwargs, node):
             m = SM.fresh_const(ex.ctx, "PS", SM.SETSORT)
             PSs.append(m)
-            st.pc.append(set_is(m, lambda e: ps_spec(A, e)))
+            if t.clause_filter is not None and not t.clause_filter.search("exactly_"):
+                # run as a dependency of C05: the lemma needs only that the witnesses are active designs
+                ee = z3.Int("e!q")
+                st.pc.append(z3.ForAll([ee], z3.Implies(z3.Select(m, ee), z3.Or(z3.Select(A.S0, ee), z3.Select(A.P0, ee)))))
+            else:
+                st.pc.append(set_is(m, lambda e: ps_spec(A, e)))
             return [(st, SM.SSet(m, ex.ctx, "PS"))]
         t.contracts[ALGOS[name] + "::" + name + ".compute_pessimistic_set"] = c_ps
         paths = t.run(ALGOS[name], name + ".discarding", [], self_val=A.obj, setmode=True)
@@ -78,8 +96,11 @@ def _vogp_family(name, slack_of):
         PS = PSs[0]  # the array the call-site contract characterised as exactly the specification's pessimistic set
         cert = Specs(A).cert_vogp(PS, A.REG0, sl)
 
+        # what C05 consumes: some OTHER ACTIVE design's region dominates the leaving design's region up to the slack
+        act = lambda i: z3.Or(z3.Select(A.S0, i), z3.Select(A.P0, i))
+        weak = lambda e: z3.Exists([q], z3.And(act(q), q != e, DOM(A.order, z3.Select(A.REG0, e), z3.Select(A.REG0, q), sl)))
         transition(t, A, paths, "discarding", "exactly_non_pessimistic_designs_certified_by_a_pessimistic_witness_leave(eps slack)",
-                   S=lambda e: z3.And(z3.Select(A.S0, e), z3.Not(cert(e))))
+                   S=lambda e: z3.And(z3.Select(A.S0, e), z3.Not(cert(e))), consumers=_safe_discard(A, weak))
         t.implicit()
     return _t
 
